@@ -57,6 +57,27 @@ BUILT = {
         'wavenumbers/temperatures and spin degeneracy invariants; keyword routing; species total = sum/product of verbose entries.',
    note=BASE_NOTE + '; scipy.integrate.quad is the integral; FTC/Leibniz; limits at 0+ of the two Debye by-parts boundary terms trusted; '
         'geometry-derived parameters (ASE) only by a labelled bounded check; one known finding (Debye F integrand)'),
+ 'C04': dict(level='proof', sec='4/C04',
+   text='_get_R_adj/_get_mass_unit over every key of the live R table and every per-mass variant; every dimensional wrapper '
+        '(mode objects via _ModelBase, StatMech incl. get_E, Nasa, Nasa9, Shomate, Reaction state/delta/activation/E_act forms) is '
+        'proved equal to its dimensionless twin called with the SAME conditions and options (P, x, S_elements, rev, act, per-species '
+        'blocks, raise_error/raise_warning) times R [times T] in the requested unit.',
+   note=BASE_NOTE + '; keyword sets enumerated (P, x, S_elements, rev, act, raise flags, one per-species block) rather than a symbolic remainder; '
+        'reaction species are abstract stubs (unknown pure functions of their keyword arguments)'),
+ 'C08': dict(level='proof', sec='4/C08',
+   text='For abstract species (getters = unknown pure functions of the keywords they receive) and symbolic real stoichiometry: every '
+        'state value is the stoichiometry-weighted sum (product of powers for q) with each species evaluated at the shared conditions '
+        'overridden by its own block; every delta is final minus initial (ratio for q) for all (rev, act); lemmas: reversal, '
+        'forward-minus-reverse activation = reaction change, q ratios, Keq = exp(-dG/RT), Kf*Kr = 1, locality of per-species blocks; '
+        'caller-supplied blocks are unmodified. Reaction and ChemkinReaction.',
+   note=BASE_NOTE + '; shapes (reactants, products, TS) enumerated: (1,1,0),(2,1,1),(2,2,1) quick; exp/log laws'),
+ 'C09': dict(level='proof', sec='4/C09',
+   text='Clamped activation enthalpy/Gibbs energy of ChemkinReaction and SurfaceReaction: >= 0, >= barrier through the TS, >= reaction '
+        'change, equal to one of them, in both directions; dimensional twins use the same direction; BEP: adjusted slope for 8 descriptors x '
+        '2 directions, descriptor values, forward - reverse barrier = reaction enthalpy/energy for delta descriptors, TS-enthalpy route = '
+        'relation route, U and H offsets use the same barrier; pre-exponential factors: (kT/h)exp(dS+m), q route, positivity, kB/h per unit '
+        'temperature without TS, site-density power (n_surf - 1) for sum/min/max/mean.',
+   note=BASE_NOTE + '; integer surface stoichiometries 1-3 enumerated; abstract species stubs'),
 }
 REASON_PENDING = 'check not built yet (build phase in progress; see DESIGN.md section 10)'
 checks = []
